@@ -123,6 +123,34 @@ sys.exit(1 if bad else 0)
 '''
 
 
+REPLAY_ATTRS = '''
+# per-file attributes must repeat the channel parameters exactly, whatever their magnitude (each parameter is a 64-bit / int field of the API)
+from vlib import build, refmodel
+import numpy as np, tempfile, os, shutil, sys, glob
+import h5py
+bad = 0
+for (n, d, sc, fc, cont, cplx, nsub) in ((2**32 + 5, 10**9, 2**33, 1000, 0, 0, 1), (10, 7, 2**33, 2**33 * 1000, 0, 1, 3), (2**33 + 1, 999999937, 86400, 1000, 1, 0, 2)):
+    top = tempfile.mkdtemp(prefix='tmp.drf_'); ch = os.path.join(top, 'ch'); os.makedirs(ch)
+    start = 10**9 * n // d + 1
+    rw = refmodel.RealWriter(build, ch, n, d, sc, fc, start, cont, cplx=cplx, nsub=nsub)
+    if not rw.obj: print('writer refused', (n, d, sc, fc)); shutil.rmtree(top); continue
+    r = rw.write_blocks([0], [0], np.zeros((2, nsub * (2 if cplx else 1)), dtype=np.int16)); rw.close()
+    want = dict(sample_rate_numerator=n, sample_rate_denominator=d, subdir_cadence_secs=sc, file_cadence_millisecs=fc, is_continuous=cont, is_complex=cplx,
+                num_subchannels=nsub, sequence_num=0)
+    files = glob.glob(os.path.join(ch, '*', 'rf@*.h5')) + [os.path.join(ch, 'drf_properties.h5')]
+    if r != 0 or len(files) < 2: print('write failed', r, files); bad = 1
+    for f in files:
+        with h5py.File(f, 'r') as h:
+            a = h['rf_data'].attrs if 'rf_data' in h else h.attrs
+            for k, v in want.items():
+                if k == 'sequence_num' and 'rf_data' not in h: continue
+                got = int(np.asarray(a[k]).ravel()[0]) if k in a else None
+                if got != v: print('%s: attribute %s == %r, channel parameter %r' % (os.path.basename(f), k, got, v)); bad = 1
+    shutil.rmtree(top)
+sys.exit(1 if bad else 0)
+'''
+
+
 REPLAY_STALE = '''
 from vlib import build, refmodel
 import numpy as np, tempfile, os, shutil, sys, glob, hashlib
@@ -193,6 +221,9 @@ def report(rep, specs, results, select, sigmap=None, label='write path'):
             # order of close and rename: observed on the real build under strace
             from checks import C02
             rep.violation(nm, sig, 'fails in "%s": %s' % (sp['name'], str(m)[:300]), replay_body=C02.STRACE_REPLAY, bounds=sp['name'], sample={'model': str(m)[:400]})
+            continue
+        if nm.startswith('each data file carries exactly the 19'):
+            rep.violation(nm, sig, 'fails in "%s": %s' % (sp['name'], str(m)[:300]), replay_body=REPLAY_ATTRS, bounds=sp['name'], sample={'model': str(m)[:400]})
             continue
         if nm.startswith('only files this writer created and closed'):
             rep.violation(nm, sig, 'fails in "%s": %s' % (sp['name'], str(m)[:300]), replay_body=REPLAY_STALE, bounds=sp['name'], sample={'model': str(m)[:400]})
